@@ -4,5 +4,7 @@ Cases == JsonDeserialize(IOEnv.CASES)
 VARIABLE i
 Init == i \in 1..Len(Cases)
 Next == UNCHANGED i
-Check == LET cl == Clause(Cases[i]) IN cl = "ok" \/ PrintT(ToJson([viol |-> i, clause |-> cl]))
+Check == LET c == Cases[i] cl == Clause(c) IN
+         /\ cl = "ok" \/ PrintT(ToJson([viol |-> i, clause |-> cl]))
+         /\ (c.err \/ ~TextIntegerRounded(c.type, c.in, c.out)) \/ PrintT(ToJson([viol |-> i, clause |-> "drift-integer-text-rounded-by-Float"]))
 =============================================================================
